@@ -133,11 +133,11 @@ fn table(p: Profile) -> Vec<(K, u32)> {
     let listeners = vec![
         (CreateBusListener, 4),
         (DestroyBusListener, 2),
-        (AddFilter, 8),
-        (RemoveFilter, 5),
-        (ClearFilters, 2),
-        (StartBusListener, 6),
-        (StopBusListener, 4),
+        (AddFilter, 10),
+        (RemoveFilter, 4),
+        (ClearFilters, 1),
+        (StartBusListener, 9),
+        (StopBusListener, 3),
     ];
     let intro = vec![
         (RegisterIntrospection, 4),
@@ -148,7 +148,7 @@ fn table(p: Profile) -> Vec<(K, u32)> {
     match p {
         Profile::Registry => registry,
         Profile::Calls => [scale(&registry, 1), scale(&calls, 4)].concat(),
-        Profile::Events => [scale(&registry, 1), scale(&events, 4)].concat(),
+        Profile::Events => [scale(&registry, 1), vec![(CreateService2, 8)], scale(&events, 4)].concat(),
         Profile::Channels => [scale(&channels, 4), vec![(Sync, 1)]].concat(),
         Profile::Listeners => [scale(&registry, 2), scale(&listeners, 3)].concat(),
         Profile::Intro => [scale(&registry, 1), scale(&intro, 4)].concat(),
@@ -190,6 +190,10 @@ pub struct View {
     pub subscribed: Vec<(ServiceCookie, usize, u32)>,
     /// (service cookie, subscriber connection id, event id)
     pub subscriptions: Vec<(ServiceCookie, usize, u32)>,
+    /// (caller connection id, caller serial, callee connection id, broker serial)
+    pub call_links: Vec<(usize, u32, usize, u32)>,
+    /// (listener owner connection id, started)
+    pub listener_owners: Vec<(usize, bool)>,
 }
 
 pub const UNCLAIMED: usize = usize::MAX;
@@ -237,6 +241,12 @@ impl View {
                     v
                 })
                 .collect(),
+            call_links: d
+                .conns
+                .iter()
+                .flat_map(|c| c.calls.iter().map(move |&(cs, bs, callee)| (c.id, cs, callee, bs)))
+                .collect(),
+            listener_owners: d.bus_listeners.iter().map(|l| (l.conn, l.scope.is_some())).collect(),
             subscriptions: d
                 .svcs
                 .iter()
@@ -246,7 +256,17 @@ impl View {
     }
 }
 
+/// The entity the next few messages concentrate on (deep interactions on one service / channel
+/// need several messages about the *same* entity from *different* connections).
+#[derive(Default, Clone, Copy)]
+pub struct Focus {
+    pub svc: Option<ServiceCookie>,
+    pub chan: Option<ChannelCookie>,
+    pub left: u32,
+}
+
 pub struct Pools {
+    pub focus: Focus,
     pub view: View,
     /// broker connection id of each raw connection
     pub ids: Vec<usize>,
@@ -316,12 +336,26 @@ impl Pools {
             wild,
             seen: HashSet::new(),
             view: View::default(),
+            focus: Focus::default(),
             ids: vec![],
         }
     }
 
     /// probability (percent) of picking a cookie from the live view rather than from the pools
     const LIVE_PCT: u64 = 72;
+
+    /// Re-draws the focus every dozen messages.
+    pub fn tick_focus(&mut self, rng: &mut Rng) {
+        if self.focus.left == 0 {
+            self.focus = Focus {
+                svc: if self.view.svcs.is_empty() { None } else { Some(rng.pick(&self.view.svcs).0) },
+                chan: if self.view.chans.is_empty() { None } else { Some(rng.pick(&self.view.chans).0) },
+                left: 6 + rng.below(12) as u32,
+            };
+        } else {
+            self.focus.left -= 1;
+        }
+    }
 
     fn me(&self, i: usize) -> usize {
         self.ids.get(i).copied().unwrap_or(usize::MAX - 7)
@@ -417,6 +451,11 @@ impl Pools {
             .filter(|s| own.map(|o| (s.1 == me) == o).unwrap_or(true))
             .map(|s| s.0)
             .collect();
+        if let Some(f) = self.focus.svc {
+            if cands.contains(&f) && rng.chance(3, 4) {
+                return f;
+            }
+        }
         if !cands.is_empty() && rng.below(100) < Self::LIVE_PCT {
             *rng.pick(&cands)
         } else {
@@ -472,6 +511,12 @@ impl Pools {
                         cands.push((k, ChannelEnd::Receiver));
                     }
                 }
+            }
+        }
+        if let Some(f) = self.focus.chan {
+            let fc: Vec<(ChannelCookie, ChannelEnd)> = cands.iter().copied().filter(|c| c.0 == f).collect();
+            if !fc.is_empty() && rng.chance(3, 4) {
+                return *rng.pick(&fc);
             }
         }
         if !cands.is_empty() && rng.below(100) < Self::LIVE_PCT + 10 {
@@ -568,6 +613,89 @@ impl Pools {
         self.gen_kind(rng, i, kind)
     }
 
+    /// A message (and the raw connection that sends it) that makes the broker send something to
+    /// the connection `dead` (whose task was just dropped, which the broker does not know yet):
+    /// the failed-send paths of the handlers are where cleanup bugs hide.
+    pub fn gen_targeting(&mut self, rng: &mut Rng, dead: usize) -> Option<(usize, Message)> {
+        let idx_of = |id: usize, ids: &Vec<usize>| ids.iter().rposition(|x| *x == id);
+        let v = &self.view;
+        let mut opts: Vec<(usize, Message)> = Vec::new();
+        // the caller aborts a call the dead connection has to serve; the dead one's callee replies
+        for &(caller, cs, callee, bs) in &v.call_links {
+            if callee == dead {
+                if let Some(i) = idx_of(caller, &self.ids) {
+                    opts.push((i, AbortFunctionCall { serial: cs }.into()));
+                }
+            }
+            if caller == dead {
+                if let Some(i) = idx_of(callee, &self.ids) {
+                    opts.push((i, CallFunctionReply { serial: bs, result: CallFunctionResult::Ok(self.values[1].clone()) }.into()));
+                }
+            }
+        }
+        // somebody calls a service of the dead connection / subscribes to it / emits to it
+        for &(svc, owner) in &v.svcs {
+            if owner == dead {
+                for (i, id) in self.ids.iter().enumerate() {
+                    if *id != dead {
+                        opts.push((i, CallFunction { serial: self.next_serial[i].wrapping_add(40), service_cookie: svc, function: 0, value: self.values[0].clone() }.into()));
+                        opts.push((i, SubscribeEvent { serial: Some(self.next_serial[i].wrapping_add(41)), service_cookie: svc, event: 0 }.into()));
+                        break;
+                    }
+                }
+            }
+        }
+        for &(svc, sub, ev) in &v.subscriptions {
+            if sub == dead {
+                if let Some(&(_, owner)) = v.svcs.iter().find(|x| x.0 == svc) {
+                    if let Some(i) = idx_of(owner, &self.ids) {
+                        opts.push((i, EmitEvent { service_cookie: svc, event: ev, value: self.values[1].clone() }.into()));
+                        opts.push((i, DestroyService { serial: self.next_serial[i].wrapping_add(42), cookie: svc }.into()));
+                    }
+                }
+            }
+        }
+        // channel traffic towards the dead connection
+        for &(k, s, r) in &v.chans {
+            if r == dead && s < CLOSED {
+                if let Some(i) = idx_of(s, &self.ids) {
+                    opts.push((i, SendItem { cookie: k, value: self.values[1].clone() }.into()));
+                    opts.push((i, CloseChannelEnd { serial: self.next_serial[i].wrapping_add(43), cookie: k, end: ChannelEnd::Sender }.into()));
+                }
+            }
+            if s == dead && r < CLOSED {
+                if let Some(i) = idx_of(r, &self.ids) {
+                    opts.push((i, AddChannelCapacity { cookie: k, capacity: 3 }.into()));
+                    opts.push((i, CloseChannelEnd { serial: self.next_serial[i].wrapping_add(44), cookie: k, end: ChannelEnd::Receiver }.into()));
+                }
+            }
+            if (s == dead && r == UNCLAIMED) || (r == dead && s == UNCLAIMED) {
+                for (i, id) in self.ids.iter().enumerate() {
+                    if *id != dead {
+                        let end = if s == UNCLAIMED { ChannelEndWithCapacity::Sender } else { ChannelEndWithCapacity::Receiver(2) };
+                        opts.push((i, ClaimChannelEnd { serial: self.next_serial[i].wrapping_add(45), cookie: k, end }.into()));
+                        break;
+                    }
+                }
+            }
+        }
+        // a bus event for a listener of the dead connection
+        if v.listener_owners.iter().any(|l| l.0 == dead && l.1) {
+            for (i, id) in self.ids.iter().enumerate() {
+                if *id != dead {
+                    opts.push((i, CreateObject { serial: self.next_serial[i].wrapping_add(46), uuid: *rng.pick(&self.obj_uuids) }.into()));
+                    break;
+                }
+            }
+        }
+        if opts.is_empty() {
+            None
+        } else {
+            let n = opts.len();
+            Some(opts.swap_remove(rng.below(n as u64) as usize))
+        }
+    }
+
     fn feasible(&self, i: usize, kind: K) -> bool {
         let me = self.me(i);
         let v = &self.view;
@@ -617,10 +745,10 @@ impl Pools {
                     if rng.chance(1, 2) {
                         info = info.set_type_id(*rng.pick(&self.type_ids));
                     }
-                    match rng.below(3) {
+                    match rng.below(6) {
                         0 => {}
-                        1 => info = info.set_subscribe_all(true),
-                        _ => info = info.set_subscribe_all(false),
+                        1 => info = info.set_subscribe_all(false),
+                        _ => info = info.set_subscribe_all(true),
                     }
                     SerializedValue::serialize(info).unwrap()
                 };
